@@ -139,7 +139,9 @@ int Cleaner::CleanDead(const BuildLog::Entries& entries) {
     //   entry in the deps log, but no longer referenced from the build
     //   graph.
     //
-    if (!n || (!n->in_edge() && n->out_edges().empty())) {
+    // A path that is only named as a validation still appears in the graph.
+    if (!n || (!n->in_edge() && n->out_edges().empty() &&
+               n->validation_out_edges().empty())) {
       Remove(i->first.AsString());
     }
   }
